@@ -68,6 +68,20 @@ pub fn check(c: &EncCase) -> Verdict {
             Err(e) => return fail(format!("reference decoder rejects the GS1 stream: {} (input {:?}, codewords {:?})", e.0, show(&c.data), cw)),
         }
     }
+    // DataMatrix::encode_gs1 is the documented way to ask for the FNC1 start: same obligations
+    if c.fnc1 && c.modes == 63 && c.macros && c.eci.is_none() {
+        if let Ok(Ok(w)) = guard(|| datamatrix::DataMatrix::encode_gs1(&c.data, mask_to_list(c.list))) {
+            let wcw = w.data_codewords();
+            if wcw.first().copied() != Some(232) {
+                return fail(format!("DataMatrix::encode_gs1: the first codeword is {:?}, not FNC1 (input {:?})", wcw.first(), show(&c.data)));
+            }
+            match r1(&w) {
+                Ok(d) if d.fnc1_first && d.message() == c.data => {}
+                Ok(d) => return fail(format!("DataMatrix::encode_gs1 stream decodes to {:?} (fnc1_first={}), input {:?}, codewords {:?}", show(&d.message()), d.fnc1_first, show(&c.data), wcw)),
+                Err(e) => return fail(format!("reference decoder rejects the DataMatrix::encode_gs1 stream: {} (input {:?}, codewords {:?})", e.0, show(&c.data), wcw)),
+            }
+        }
+    }
     match guard(|| datamatrix::data::decode_data(cw)) {
         Ok(Ok(out)) if out == c.data => {}
         Ok(Ok(out)) => return fail(format!("decode_data returns {:?}, input was {:?} (macros={}, fnc1={}, codewords {:?})", show(&out), show(&c.data), c.macros, c.fnc1, cw)),
@@ -122,11 +136,31 @@ fn enumerated() -> Vec<EncCase> {
             }
         }
     }
+    // data that begins like something a scanner or another layer would add (symbology identifiers,
+    // group separators, the FNC1 / macro codeword values as bytes): it is data, to be kept as it is
+    let prefixes: [&[u8]; 14] = [b"]d2", b"]d1", b"]d", b"]C1", b"]Q3", b"]e0", b"\x1d", b"\x1d\x1d", b"\xe8", b"\xec", b"\xed", b"[)>", b"\x1e\x04", b"]D2"];
+    let tails: [&[u8]; 5] = [b"", b"0109501101530003", b"A", b"10ABC\x1d2112", b"]d2"];
+    for p in prefixes {
+        for t in tails {
+            for both in [false, true] {
+                let mut data = p.to_vec();
+                data.extend_from_slice(t);
+                if both {
+                    data.extend_from_slice(p);
+                }
+                for modes in [63u8, 1, 62] {
+                    for (macros, fnc1) in [(true, false), (false, false), (true, true), (false, true)] {
+                        v.push(EncCase { data: data.clone(), list: default_mask(), modes, macros, fnc1, eci: None, stratum: "enumerated-prefixes" });
+                    }
+                }
+            }
+        }
+    }
     v
 }
 
 fn run(ctx: &Arc<Ctx>) {
-    ctx.run_enumerated("lengths", "enc", enumerated(), Some("every length 0..=16 of header-prefix / trailer combinations x 6 mode sets x 4 flag combinations"), check);
+    ctx.run_enumerated("lengths", "enc", enumerated(), Some("every length 0..=16 of header-prefix / trailer combinations x 6 mode sets x 4 flag combinations; 14 scanner-style prefixes x 5 tails x 3 mode sets x 4 flag combinations"), check);
     let o = EncGenOpts { long_weight: 0, macro_weight: 30, ..Default::default() };
     ctx.run_generated("generated", "enc", ctx.cases(800_000, 5_000_000), || g_enc_case(o), check);
 }
